@@ -1,5 +1,6 @@
 import FsnVerif.Props.C12
 import FsnVerif.Props.C02
+import FsnVerif.Proofs.CleanLemmas
 /-!
 # C09 — A watch ends when its path is deleted or renamed, and can be re-added (model side)
 
@@ -7,7 +8,8 @@ In every reachable state: handling `IN_IGNORED`, `IN_UNMOUNT`, `IN_DELETE_SELF` 
 `IN_MOVE_SELF` for a listed wd takes the entry out of both tables — the path leaves WatchList,
 `Remove` on it reports `ErrNonExistentWatch`, later records for that wd are silent, and the path
 can be added again (C08.stored_path_is_clean_arg creates a fresh entry); the MOVE_SELF case also
-issues `inotify_rm_watch`. An `IN_ATTRIB` alone (unlink while a descriptor is open) changes no
+issues `inotify_rm_watch`. (`self_gone_ends_watch'`; the auxiliary `self_gone_ends_watch` takes the cleanness of the stored
+path as a hypothesis, which `reachable_paths_clean` + `Fsn.clean_idem` discharge.) An `IN_ATTRIB` alone (unlink while a descriptor is open) changes no
 table and reports Chmod. `IN_DELETE_SELF` reports Remove iff the parent directory's path is not
 listed at that moment.
 Known gap (finding F5, `late_parent_witness`): "unless the watched parent already did" is
@@ -104,6 +106,24 @@ theorem self_gone_ends_watch {l : Lib} (h : Reachable l) (env : Env) (r : Raw) (
       unfold Lib.afterDeleteSelf
       rw [if_pos hds, ← hwd]
       exact dropped l w
+
+/-- in every reachable state every stored watch path is a fixed point of `clean` (`filepath.Clean`
+as modelled is idempotent: `Fsn.clean_idem`), so re-cleaning it in `removePath` finds the same entry -/
+theorem reachable_paths_clean {l : Lib} (h : Reachable l) : l.PathsClean := by
+  induction h with
+  | init => exact Lib.pathsClean_empty
+  | step l env op hr hk ih =>
+    obtain ⟨hi, hn⟩ := reachable_inv hr
+    cases op with
+    | add arg ops nf => exact ih.add env arg ops nf
+    | remove arg => exact ih.remove hi hn env _
+    | batch rs => exact ih.stepRecords hi hn env rs
+
+/-- **self gone ends the watch**, for every reachable state, without side conditions -/
+theorem self_gone_ends_watch' {l : Lib} (h : Reachable l) (env : Env) (r : Raw) (w : Watch)
+    (hw : alLookup r.wd l.wdT = some w) (hend : endsWatch r.mask = true) :
+    alLookup r.wd (l.handle env r).lib.wdT = none ∧ alLookup w.path (l.handle env r).lib.pathT = none :=
+  self_gone_ends_watch h env r w hw hend (reachable_paths_clean h r.wd w hw)
 
 /-- once the watch has ended, `Remove` on its path reports `ErrNonExistentWatch` -/
 theorem remove_after_end {l : Lib} (h : Reachable l) (env : Env) (p : Path) (hgone : alLookup (clean p) l.pathT = none) :
